@@ -201,7 +201,7 @@ class Gen(object):
     def light(self):
         rng = self.rng
         k = rng.choice(['ambient', 'directional', 'point', 'spot'])
-        l = {'kind': k, 'id': self.ident('light'), 'color': color(rng)}
+        l = {'kind': k, 'id': self.ident('light'), 'color': color(rng), 'form': rng.choice(['tuple', 'tuple', 'list', 'nparray', 'np64'])}
         if k == 'point':
             l['params'] = dict((nm, pos7(rng) if rng.random() < 0.8 else rng.choice([0.0, 1.0]))
                                for nm in ('constant_att', 'linear_att', 'quad_att', 'zfar') if rng.random() < 0.6)
@@ -216,20 +216,23 @@ class Gen(object):
         k = rng.choice(['perspective', 'orthographic'])
         a, b = ('xfov', 'yfov') if k == 'perspective' else ('xmag', 'ymag')
         combo = rng.choice([[a], [b], [a, b], [a, 'aspect_ratio'], [b, 'aspect_ratio']])
-        return {'kind': k, 'id': self.ident('cam'), 'znear': pos7(rng, 1e-3, 10.0), 'zfar': pos7(rng, 10.0, 1e6),
+        return {'kind': k, 'id': self.ident('cam'), 'form': rng.choice(['py', 'py', 'np64']),
+                'znear': pos7(rng, 1e-3, 10.0), 'zfar': pos7(rng, 10.0, 1e6),
                 'params': dict((nm, pos7(rng, 0.1, 120.0)) for nm in combo)}
 
     # ---- scene graph
     def transform(self):
         rng = self.rng
         k = rng.choice(['translate', 'rotate', 'scale', 'matrix', 'lookat'])
+        form = rng.choice(['py', 'py', 'np64', 'np32', 'nparray', 'int'])
         if k == 'translate':
-            return {'kind': k, 'params': [dec7(rng) for _ in range(3)]}
+            return {'kind': k, 'params': [dec7(rng) if form != 'int' else float(rng.randint(-9, 9)) for _ in range(3)], 'form': form}
         if k == 'scale':
-            return {'kind': k, 'params': [dec7(rng) for _ in range(3)]}
+            return {'kind': k, 'params': [dec7(rng) if form != 'int' else float(rng.randint(1, 9)) for _ in range(3)], 'form': form}
         if k == 'rotate':
             axis = rng.choice([[1.0, 0.0, 0.0], [0.0, 1.0, 0.0], [0.0, 0.0, 1.0], [dec7(rng) for _ in range(3)]])
-            return {'kind': k, 'params': axis + [float('%.7g' % rng.uniform(-360, 360))]}
+            return {'kind': k, 'params': axis + [float('%.7g' % rng.uniform(-360, 360))],
+                    'form': form if form != 'int' else 'np64'}
         if k == 'matrix':
             dt = rng.choice(['f4', 'f8'])
             vals = [dec7(rng) for _ in range(16)]
